@@ -893,7 +893,19 @@ func ruleDueBindingIsSent(c *Ctx, rule string) {
 	setState := w.Func("client", "binding", "setState")
 	stReq, stRef := w.ConstInt("client", "bindingStateRequest"), w.ConstInt("client", "bindingStateRefresh")
 	c.Anchor(rule, "maybeBind")
-	reachesBind := w.mayContain(func(in ssa.Instruction) bool { return staticCallee(in) == bind })
+	callsBind := w.mayContain(func(in ssa.Instruction) bool { return staticCallee(in) == bind })
+	// (a function literal that calls bind and is handed to a retry combinator counts as well)
+	reachesBind := w.mayContain(func(in ssa.Instruction) bool {
+		if staticCallee(in) == bind {
+			return true
+		}
+		if mc, ok := in.(*ssa.MakeClosure); ok {
+			if body := w.closureBody(mc); body != nil && callsBind(body) {
+				return true
+			}
+		}
+		return false
+	})
 	isMove := func(in ssa.Instruction) bool {
 		call, ok := in.(*ssa.Call)
 		if !ok || call.Call.StaticCallee() != setState || len(call.Call.Args) < 2 {
